@@ -53,6 +53,18 @@ Definition ns_oracle_frames (max : Z) (frames : list (list Z)) (feeds : list (li
     && match rev feeds with [] => true | (_, o) :: _ => nso_size o =? 0 end
   else true.
 
+(* ---------------- buffered reader driven by the callers' loop up to the END of the stream.
+   Observation: frames handed over, how the loop ended (0 = StatusEof, 1 = exception, 2 = neither within the harness'
+   generous bound on the number of calls), and - at StatusEof - the bytes left in the buffer and whether the next calls
+   answered StatusEof again.  The expectation is computed with the whole input as ONE fill: by
+   C20_ns_eof_chunking_independent it is the same for every chunking the real stream may have delivered. *)
+Definition ns_end_code (e : ns_end) : Z := match e with NsEndEof => 0 | NsEndErr _ => 1 | NsEndFuel => 2 end.
+
+Definition ns_oracle_eof (max : Z) (input : list Z) (items : list (list Z)) (en size sticky : Z) : bool :=
+  let '(fs, e, sz) := ns_read_all max [input] in
+  cd_frames_eqb fs items && (en =? ns_end_code e) &&
+  (if en =? 0 then (size =? sz) && (sticky =? 1) else true).
+
 (* ---------------- stream variant: frames read until the first error / end of the stream *)
 Fixpoint nss_run (fuel : nat) (max : Z) (input : list Z) : list (list Z) * Z * Z :=   (* items, end (0 short, 1 err), rest *)
   match fuel with
